@@ -16,6 +16,10 @@ pub struct Case {
     pub cnf: CnfCase,
     pub order_keys: Vec<u16>,
     pub table_cap: Option<u16>,
+    /// further CNFs compiled afterwards in the same two builders: clause subsets of the first one (bit i of a
+    /// mask keeps clause i mod 16), padded with a tautology on the last variable so that the variable count stays
+    #[serde(default)]
+    pub more: Vec<u16>,
 }
 
 pub struct TopDown;
@@ -100,10 +104,15 @@ fn check_result<'a>(
 pub fn run_case(case: &Case, st: &mut Stats) -> CaseResult {
     let cnf: Cnf = case.cnf.to_rsdd();
     let n = cnf.num_vars();
-    ensure!(n == case.cnf.num_vars(), "C06/harness-numvars", "Cnf::num_vars {} vs {}", n, case.cnf.num_vars());
+    // the compiler's input is the Cnf object: its clause list as read through clauses()
+    let seen = CnfCase::read_back(&cnf);
+    st.flag("cnf_object_differs_from_generating_list(C15's concern)", seen.tt() != case.cnf.tt() || n != case.cnf.num_vars());
+    if n > crate::tt::NV || seen.num_vars() > n {
+        return Ok(());
+    }
     let perm = perm_from_keys(&case.order_keys, n);
     let order_lbls: Vec<VarLabel> = perm.iter().map(|v| VarLabel::new_usize(*v)).collect();
-    let expect = case.cnf.tt();
+    let expect = seen.tt();
 
     rsdd::verif_hooks::set_unique_table_capacity(case.table_cap.map(|c| c as usize));
     let std_b = StandardDecisionNNFBuilder::new(VarOrder::new(&order_lbls));
@@ -128,14 +137,68 @@ pub fn run_case(case: &Case, st: &mut Stats) -> CaseResult {
         &|p, v, b| sem_b.condition(p, VarLabel::new_usize(v), b),
         st,
     )?;
-    // scratch must be clean afterwards (conditioning uses it)
-    for nd in bdd_nodes(r1).into_iter().chain(bdd_nodes(r2)) {
-        ensure!(
-            BddPtr::Reg(nd).is_scratch_cleared(),
-            "C06/scratch-left-behind",
-            "a node of the result still has scratch data after conditioning"
-        );
+    // conditioning twice in a row (the second call starts from a conditioned diagram)
+    if n >= 2 {
+        for (store, r) in [("standard", r1), ("semantic", r2)] {
+            for v1 in 0..n.min(3) {
+                let v2 = (v1 + 1 + (case.order_keys.first().copied().unwrap_or(0) as usize) % (n - 1)) % n;
+                if v2 == v1 {
+                    continue;
+                }
+                for (b1, b2) in [(false, true), (true, false), (true, true)] {
+                    let c = if store == "standard" {
+                        std_b.condition(std_b.condition(r, VarLabel::new_usize(v1), b1), VarLabel::new_usize(v2), b2)
+                    } else {
+                        sem_b.condition(sem_b.condition(r, VarLabel::new_usize(v1), b1), VarLabel::new_usize(v2), b2)
+                    };
+                    let want = expect.cofactor(v1, b1).cofactor(v2, b2);
+                    ensure!(
+                        bdd_tt(c) == want,
+                        format!("C06/condition:{}", store),
+                        "condition(condition(result, x{} = {}), x{} = {}) denotes {:?}, the restricted function is {:?}",
+                        v1,
+                        b1,
+                        v2,
+                        b2,
+                        bdd_tt(c),
+                        want
+                    );
+                    st.add("chained_conditionings", 1);
+                }
+            }
+        }
     }
+    // further compilations in the same builders (the stores, and the semantic store's hash table of nodes,
+    // now hold nodes of the earlier results)
+    if n >= 1 && !seen.clauses.is_empty() {
+        for mask in case.more.iter().take(3) {
+            let mut cl: Vec<Vec<Lit>> = seen.clauses.iter().enumerate().filter(|(i, _)| (mask >> (i % 16)) & 1 == 1).map(|(_, c)| c.clone()).collect();
+            cl.push(vec![((n - 1) as u8, true), ((n - 1) as u8, false)]);
+            let sub = CnfCase { clauses: cl };
+            let sub_obj = sub.to_rsdd();
+            let sub_seen = CnfCase::read_back(&sub_obj);
+            if sub_obj.num_vars() != n {
+                continue;
+            }
+            let e2 = sub_seen.tt();
+            let a = std_b.compile_cnf_topdown(&sub_obj);
+            check_result("standard", a, e2, n, &|p, v, b| std_b.condition(p, VarLabel::new_usize(v), b), st).map_err(|mut f| {
+                f.detail = format!("{} [compiled after {:?} in the same builder: {:?}]", f.detail, seen.clauses, sub_seen.clauses);
+                f
+            })?;
+            let c = sem_b.compile_cnf_topdown(&sub_obj);
+            check_result("semantic", c, e2, n, &|p, v, b| sem_b.condition(p, VarLabel::new_usize(v), b), st).map_err(|mut f| {
+                f.detail = format!("{} [compiled after {:?} in the same builder: {:?}]", f.detail, seen.clauses, sub_seen.clauses);
+                f
+            })?;
+            // the earlier results still denote what they did
+            ensure!(bdd_tt(r1) == expect && bdd_tt(r2) == expect, "C06/wrong-function:earlier-result-changed", "a later compilation changed an earlier result");
+            st.bump("further_compilations_in_the_same_builder");
+        }
+    }
+    // scratch left behind by conditioning is C10's concern: recorded only
+    let dirty = bdd_nodes(r1).into_iter().chain(bdd_nodes(r2)).any(|nd| !BddPtr::Reg(nd).is_scratch_cleared());
+    st.flag("scratch_left_behind(C10's concern)", dirty);
     st.flag("unsat", expect.is_false());
     st.flag("tautology", expect.is_true());
     st.flag("unsat_without_empty_clause", expect.is_false() && !case.cnf.has_empty_clause());
@@ -154,7 +217,7 @@ pub fn run_case(case: &Case, st: &mut Stats) -> CaseResult {
 impl SubCheckT for TopDown {
     type Case = Case;
     const NAME: &'static str = "topdown";
-    const RULE: &'static str = "random CNF (n<=7, incl. empty formula, empty/unit/duplicate/tautological clauses, repeated gadgets on disjoint blocks) x random permutation of its variables as decision order x {standard, semantic(64-bit)} node store: result is the false constant iff brute force finds no model; truth table (walked) = CNF's; no path repeats a variable; condition(r,v,b) and condition(not r,v,b) denote the cofactor / its negation for every v,b. Non-trivial: satisfiable, non-tautological, support >= 3";
+    const RULE: &'static str = "random CNF (n<=7, incl. empty formula, empty/unit/duplicate/tautological clauses, repeated gadgets on disjoint blocks) x random permutation of its variables as decision order x {standard, semantic(64-bit)} node store: result is the false constant iff brute force finds no model; truth table (walked) = CNF's; no path repeats a variable; condition(r,v,b) and condition(not r,v,b) denote the cofactor / its negation for every v,b, chained conditionings the double cofactor; up to 2 further CNFs (clause subsets) are compiled in the same builders and held to the same checks. Non-trivial: satisfiable, non-tautological, support >= 3";
     fn cases(tier: Tier) -> u32 {
         tier.pick(12_000, 200_000)
     }
@@ -163,11 +226,13 @@ impl SubCheckT for TopDown {
             cnf_strategy(),
             crate::bddi::order_keys_strategy(),
             prop_oneof![1 => Just(None), 6 => (1u16..=64).prop_map(Some)],
+            proptest::collection::vec(any::<u16>(), 0..=2),
         )
-            .prop_map(|(cnf, order_keys, table_cap)| Case {
+            .prop_map(|(cnf, order_keys, table_cap, more)| Case {
                 cnf,
                 order_keys,
                 table_cap,
+                more,
             })
             .boxed()
     }
